@@ -21,30 +21,29 @@ try:
         rs = sh("cd %s && python3 tools/run_baseline.py %s" % (V, wt)); meta["suite"] = rs.stdout.strip().splitlines()[-1] if rs.stdout.strip() else ""; meta["suite_ok"] = rs.returncode == 0
         if not meta["suite_ok"]:
             meta["suite_tail"] = rs.stdout[-600:]
+        # run the checks against the patched worktree (never against /repo itself)
+        det = {}
+        props = [c["property_id"] for c in json.load(open(os.path.join(V, "MANIFEST.json")))["checks"]]
+        from concurrent.futures import ThreadPoolExecutor
+        def one(p):
+            return p, sh("cd %s && ./check %s --no-evidence --root %s" % (V, p, wt))
+        with ThreadPoolExecutor(10) as ex:
+            for p, r in ex.map(one, props):
+                lines = [l for l in r.stdout.splitlines() if l.startswith("FINDING") or l.startswith("ANALYSIS-ERROR")]
+                if r.returncode != 0:
+                    det[p] = {"exit": r.returncode, "reports": [l[:260] for l in lines][:4]}
 finally:
     sh("git -C /repo worktree remove --force %s" % wt)
 confirmed = meta.get("demo_exit_clean") == 0 and meta.get("patch_applies") and meta.get("demo_exit_patched", 0) != 0 and meta.get("suite_ok")
 meta["confirmed"] = bool(confirmed)
-# run the checks against the change in /repo itself
-det = {}
-if meta.get("patch_applies"):
-    assert sh("git -C /repo status --porcelain").stdout.strip() == "", "repo not clean"
-    try:
-        assert sh("git -C /repo apply %s" % patch).returncode == 0
-        props = [prop] + [p for p in json.load(open(os.path.join(V, "MANIFEST.json")))["checks"] and [c["property_id"] for c in json.load(open(os.path.join(V, "MANIFEST.json")))["checks"]] if p != prop]
-        for p in props:
-            r = sh("cd %s && ./check %s --no-evidence" % (V, p))
-            lines = [l for l in r.stdout.splitlines() if l.startswith("FINDING") or l.startswith("ANALYSIS-ERROR")]
-            if r.returncode != 0:
-                det[p] = {"exit": r.returncode, "reports": [l[:260] for l in lines][:4]}
-    finally:
-        sh("git -C /repo checkout -- .")
+if "det" not in dir():
+    det = {}
 meta["checks_fired"] = det
 meta["detected_by_target_check"] = prop in det and det[prop]["exit"] == 1
 meta["detected_by_any_check"] = any(d["exit"] == 1 for d in det.values())
 notes = os.path.join(sdir, "notes.md")
 meta["needs_to_manifest"] = open(notes).read()[:1500] if os.path.exists(notes) else ""
-meta["ran"] = "clean worktree: demo; git apply; demo; tools/run_baseline.py (1047 stable tests); then git -C /repo apply, ./check <all>, git -C /repo checkout -- ."
+meta["ran"] = "clean worktree: demo; git apply; demo; tools/run_baseline.py (1047 stable tests); then ./check <all> --root <patched worktree>"
 out = os.path.join(V, "seeded", sid); os.makedirs(out, exist_ok=True)
 shutil.copy(patch, os.path.join(out, "patch.diff")); shutil.copy(demo, os.path.join(out, "demo.py"))
 json.dump(meta, open(os.path.join(out, "meta.json"), "w"), indent=1)
